@@ -137,4 +137,188 @@ theorem splitDot_inv : ∀ (s : Bytes),
           · exact hb
           · exact this.2.1 x hx
 
+/-! ### inversion of the two splitting stages -/
+
+def expBytes : Option (Nat × Bytes × Bytes) → Bytes
+  | none => []
+  | some (m, s, d) => m :: (s ++ d)
+
+def expValOf : Option (Nat × Bytes × Bytes) → Int
+  | none => 0
+  | some (_, s, d) => if s == [45] then -(valOf d : Int) else (valOf d : Int)
+
+theorem splitExp_inv {s mant : Bytes} {e0 : Int} (h : splitExp s = some (mant, e0)) :
+    ∃ ex, s = mant ++ expBytes ex ∧
+      (∀ m sg dd, ex = some (m, sg, dd) → (m = 69 ∨ m = 101) ∧ okSign sg = true ∧ dd ≠ [] ∧ dd.all isDigit = true) ∧
+      e0 = expValOf ex ∧ -2147483648 ≤ e0 ∧ e0 ≤ 2147483647 := by
+  unfold splitExp at h
+  split at h
+  · simp only [Option.some.injEq, Prod.mk.injEq] at h
+    obtain ⟨rfl, rfl⟩ := h
+    refine ⟨none, ?_, ?_, rfl, by decide, by decide⟩
+    · simp [expBytes]
+    · intro m sg dd he; cases he
+  · rename_i i hi
+    obtain ⟨m, hm, hs, _⟩ := indexAnyE_some_inv hi
+    split at h
+    · cases h
+    · rename_i e he
+      simp only [Option.some.injEq, Prod.mk.injEq] at h
+      obtain ⟨rfl, rfl⟩ := h
+      unfold parseInt32 at he
+      split at he
+      · cases he
+      · rename_i p hp
+        obtain ⟨neg, v⟩ := p
+        obtain ⟨sg, dd, hsg, ht, hne, hd, hv, hn⟩ := parseSigned_inv hp
+        simp only at he
+        split at he
+        · rename_i hrange
+          simp only [Option.some.injEq] at he
+          refine ⟨some (m, sg, dd), ?_, ?_, ?_, ?_, ?_⟩
+          · rw [expBytes, ← ht]; exact hs
+          · intro m' sg' dd' hx
+            simp only [Option.some.injEq, Prod.mk.injEq] at hx
+            obtain ⟨rfl, rfl, rfl⟩ := hx
+            exact ⟨hm, hsg, hne, hd⟩
+          · rw [← he]; simp only [expValOf, signedVal, hn, hv]
+          · rw [← he]; exact hrange.1
+          · rw [← he]; exact hrange.2
+        · cases he
+
+/-- first byte after the point is not a sign -/
+theorem cds_point {p0 rest : Bytes} (hp0 : NoDot p0) (h : containsDotSign (p0 ++ 46 :: rest) = false) :
+    ∀ b r, rest = b :: r → isSign b = false := by
+  intro b r hr
+  rw [cds_append _ hp0, hr] at h
+  simp only [containsDotSign, Bool.or_eq_false_iff, Bool.and_eq_false_iff] at h
+  rcases h.1 with h1 | h1
+  · simp at h1
+  · exact h1
+
+theorem append_sign_split {p0 t sg ds : Bytes} (hsg : okSign sg = true) (hp0 : p0 ≠ [])
+    (h : p0 ++ t = sg ++ ds) : ∃ a, p0 = sg ++ a ∧ ds = a ++ t := by
+  rcases List.append_eq_append_iff.1 h with ⟨a', h1, h2⟩ | ⟨c', h1, h2⟩
+  · -- sg = p0 ++ a'
+    rcases okSign_cases hsg with rfl | rfl | rfl
+    · simp at h1; exact absurd h1.1 hp0
+    · cases p0 with
+      | nil => exact absurd rfl hp0
+      | cons x r =>
+        simp only [List.cons_append, List.cons.injEq] at h1
+        have hr : r = [] ∧ a' = [] := by simpa using h1.2.symm
+        obtain ⟨rfl, rfl⟩ := hr
+        exact ⟨[], by simp [h1.1], by simpa using h2.symm⟩
+    · cases p0 with
+      | nil => exact absurd rfl hp0
+      | cons x r =>
+        simp only [List.cons_append, List.cons.injEq] at h1
+        have hr : r = [] ∧ a' = [] := by simpa using h1.2.symm
+        obtain ⟨rfl, rfl⟩ := hr
+        exact ⟨[], by simp [h1.1], by simpa using h2.symm⟩
+  · exact ⟨c', h1, h2⟩
+
+/-- **soundness of the library's parser** (after the sign-after-point check): an accepted string is a
+literal of G with at least one significant or integer digit, parsed to its coefficient and exponent. -/
+theorem newFromString_sound (s : Bytes) (d : Dec) (hcds : containsDotSign s = false)
+    (h : newFromString s = some d) :
+    ∃ l : Lit, l.WF ∧ l.render = s ∧ l.tdigits ≠ [] ∧
+      (-2147483648 ≤ l.expVal ∧ l.expVal ≤ 2147483647) ∧
+      (-2147483648 ≤ l.cexp ∧ l.cexp ≤ 2147483647) ∧ d = ⟨l.coef, l.cexp⟩ := by
+  unfold newFromString at h
+  split at h; · cases h
+  rename_i mant e0 hse
+  split at h; · cases h
+  rename_i istr e hsm
+  split at h; · cases h
+  rename_i v hpb
+  split at h; · cases h
+  rename_i hrange
+  simp only [Option.some.injEq] at h
+  obtain ⟨ex, hs, hexwf, he0, he0lo, he0hi⟩ := splitExp_inv hse
+  -- the coefficient string
+  unfold parseBigInt at hpb
+  cases hps : parseSigned istr with
+  | none => rw [hps] at hpb; cases hpb
+  | some p =>
+    obtain ⟨neg, mag⟩ := p
+    rw [hps] at hpb
+    simp only [Option.map_some, Option.some.injEq] at hpb
+    obtain ⟨sg, ds, hsg, histr, hdsne, hdsd, hmag, hneg⟩ := parseSigned_inv hps
+    have hexp : ∀ (l : Lit), l.ex = ex → l.expVal = e0 := by
+      intro l hl; rw [he0, ← hl]; unfold Lit.expVal expValOf
+      cases l.ex with
+      | none => rfl
+      | some t => obtain ⟨m, s', d'⟩ := t; rfl
+    have hexpart : ∀ (l : Lit), l.ex = ex → l.expPart = expBytes ex := by
+      intro l hl; rw [← hl]; unfold Lit.expPart expBytes
+      cases l.ex with
+      | none => rfl
+      | some t => obtain ⟨m, s', d'⟩ := t; rfl
+    unfold splitMant at hsm
+    split at hsm
+    · -- no decimal point
+      rename_i p hp
+      simp only [Option.some.injEq, Prod.mk.injEq] at hsm
+      obtain ⟨rfl, rfl⟩ := hsm
+      obtain ⟨hmp, _⟩ := (splitDot_inv mant).1 p hp
+      let l : Lit := ⟨sg, ds, none, ex⟩
+      have hfp : l.fpDigits = [] := rfl
+      have htd : l.tdigits = ds := by simp [Lit.tdigits, hfp, trimRight0, l]
+      have hce : l.cexp = e0 := by simp [Lit.cexp, hfp, trimRight0, hexp l rfl]
+      refine ⟨l, ⟨hsg, hdsd, by rw [hfp]; rfl, by simpa [hfp, l] using hdsne, fun m s' d' hx => hexwf m s' d' hx⟩,
+        ?_, by rw [htd]; exact hdsne, by rw [hexp l rfl]; exact ⟨he0lo, he0hi⟩, by rw [hce]; omega, ?_⟩
+      · rw [Lit.render_eq, hexpart l rfl, hs, hmp, histr]; simp [Lit.mant, l]
+      · rw [← h, ← hpb, hce]; simp [Lit.coef, htd, Lit.neg, hneg, hmag, l]
+    · -- one decimal point
+      rename_i p0 p1 hp
+      simp only [Option.some.injEq, Prod.mk.injEq] at hsm
+      obtain ⟨rfl, rfl⟩ := hsm
+      obtain ⟨hmp, hn0, hn1⟩ := (splitDot_inv mant).2 p0 p1 hp
+      obtain ⟨k, hk⟩ := trimRight0_append p1
+      have hzeros : (List.replicate k 48).all isDigit = true := by simp [isDigit]
+      -- the byte after the point is not a sign
+      have hafter : ∀ b r, p1 ++ expBytes ex = b :: r → isSign b = false := by
+        have : containsDotSign (p0 ++ 46 :: (p1 ++ expBytes ex)) = false := by
+          rw [← hcds, hs, hmp]; simp
+        exact cds_point hn0 this
+      -- split p0 into sign and integer digits; the trimmed fraction is all digits
+      have key : ∃ a, p0 = sg ++ a ∧ ds = a ++ trimRight0 p1 := by
+        by_cases hp0 : p0 = []
+        · subst hp0
+          simp only [List.nil_append] at histr
+          rcases okSign_cases hsg with rfl | rfl | rfl
+          · exact ⟨[], rfl, by simpa using histr.symm⟩
+          · exfalso
+            have h1 : p1 = 43 :: (ds ++ List.replicate k 48) := by rw [hk, histr]; simp
+            have := hafter 43 _ (by rw [h1]; rfl)
+            simp [isSign] at this
+          · exfalso
+            have h1 : p1 = 45 :: (ds ++ List.replicate k 48) := by rw [hk, histr]; simp
+            have := hafter 45 _ (by rw [h1]; rfl)
+            simp [isSign] at this
+        · exact append_sign_split hsg hp0 histr
+      obtain ⟨a, hp0a, hdsa⟩ := key
+      have had : a.all isDigit = true := by
+        rw [hdsa, List.all_append, Bool.and_eq_true] at hdsd; exact hdsd.1
+      have htd' : (trimRight0 p1).all isDigit = true := by
+        rw [hdsa, List.all_append, Bool.and_eq_true] at hdsd; exact hdsd.2
+      have hp1d : p1.all isDigit = true := by
+        rw [hk, List.all_append, htd', hzeros]; rfl
+      let l : Lit := ⟨sg, a, some p1, ex⟩
+      have hfp : l.fpDigits = p1 := rfl
+      have htd : l.tdigits = ds := by simp [Lit.tdigits, hfp, hdsa, l]
+      have hce : l.cexp = e0 - (trimRight0 p1).length := by simp [Lit.cexp, hfp, hexp l rfl]
+      refine ⟨l, ⟨hsg, had, by rw [hfp]; exact hp1d, ?_, fun m s' d' hx => hexwf m s' d' hx⟩,
+        ?_, by rw [htd]; exact hdsne, by rw [hexp l rfl]; exact ⟨he0lo, he0hi⟩, by rw [hce]; omega, ?_⟩
+      · rw [hfp]
+        intro hnil
+        have ha : a = [] := (List.append_eq_nil_iff.1 hnil).1
+        have hp : p1 = [] := (List.append_eq_nil_iff.1 hnil).2
+        rw [ha, hp] at hdsa
+        exact hdsne (by simpa [trimRight0] using hdsa)
+      · rw [Lit.render_eq, hexpart l rfl, hs, hmp, hp0a]; simp [Lit.mant, l, cDot]
+      · rw [← h, ← hpb, hce]; simp [Lit.coef, htd, Lit.neg, hneg, hmag, l]
+    · cases hsm
+
 end Sky.C30
